@@ -898,8 +898,10 @@ def _parse_request_range(
 
     [0]: http://greenbytes.de/tech/webdav/draft-ietf-httpbis-p5-range-latest.html#byte.ranges
     """
-    unit, _, value = range_header.partition("=")
-    unit, value = unit.strip(), value.strip()
+    # Only "bytes=" followed by a single first-last / first- / -suffix spec of
+    # plain ASCII digits is a range we can honor; per RFC 7233 anything else
+    # (signs, inner whitespace, "1_0", other digits...) is ignored.
+    unit, _, value = range_header.strip().partition("=")
     if unit != "bytes":
         return None
     start_b, _, end_b = value.partition("-")
@@ -934,9 +936,11 @@ def _get_content_range(start: int | None, end: int | None, total: int) -> str:
 
 
 def _int_or_none(val: str) -> int | None:
-    val = val.strip()
     if val == "":
         return None
+    if not re.fullmatch(r"[0-9]+", val):
+        # int() alone would also accept "+5", " 5", "1_0", "-5" and non-ASCII digits.
+        raise ValueError("not a decimal number: %r" % val)
     return int(val)
 
 
